@@ -108,6 +108,14 @@ func (r routecmd) build() []string {
 			// a command which fabio's own route parser rejects would make every
 			// routing table which contains it invalid and thereby block the
 			// updates for all other services. Drop it on its own instead.
+			//
+			// A command is a single line. A tag or option with a line break
+			// would smuggle further lines - i.e. arbitrary route commands -
+			// into the routing table.
+			if strings.ContainsAny(cfg, "\r\n") {
+				log.Printf("[WARN] consul: Skipping route of service %q since a tag or option contains a line break", name)
+				continue
+			}
 			if _, err := froute.NewTable(bytes.NewBufferString(cfg)); err != nil {
 				log.Printf("[WARN] consul: Skipping invalid route %q of service %q: %s", cfg, name, err)
 				continue
